@@ -14,6 +14,8 @@
 //! Second opinion on a budgeted subset: honest traces through the prover with p3's
 //! `check_lookups` multiset debug check switched on.
 
+mod npo;
+
 use std::sync::Mutex;
 use std::sync::atomic::{AtomicU64, Ordering};
 
@@ -145,6 +147,29 @@ fn main() {
 
     if let Some(path) = &ctx.replay {
         let r = vpcore::load_replay(path);
+        if !r["shape"].is_null() {
+            let sh: npo::Shape = vpcore::serde_json::from_value(r["shape"].clone()).unwrap_or_else(|e| vpcore::machinery_error(&format!("bad replay: {e}")));
+            println!("replaying npo shape: {}", sh.show());
+            if let Ok(b) = npo::build(&sh, npo::k_val()) {
+                for op in &b.circuit.ops {
+                    println!("  op {op:?}");
+                }
+                if let Ok(prep) = npo::prepare(&b.circuit) {
+                    for pt in npo::ports(&prep).unwrap_or_default() {
+                        println!("  port {pt:?}");
+                    }
+                }
+            }
+            if let Some(c) = npo::census(&sh, None) {
+                for f in c.findings {
+                    println!("  [{}] {}", f.key, f.detail);
+                    report.violation(f.key.clone(), f.detail.clone(), json!({"shape": sh}));
+                }
+            }
+            println!("  honest run: {:?}", npo::second_opinion(&sh));
+            let cov = json!({"states":1,"transitions":1,"traces_validated_against_impl":1,"samples":[sh.show()],"replay":true});
+            finish(&ctx, cov, vec![], &report);
+        }
         let p: Program = vpcore::serde_json::from_value(r["program"].clone()).unwrap_or_else(|e| vpcore::machinery_error(&format!("bad replay: {e}")));
         println!("replaying: {}", p.show());
         if let Ok(m) = materialize::<F, F>(&p, &cs) {
@@ -169,12 +194,18 @@ fn main() {
         finish(&ctx, cov, vec![], &report);
     }
 
+    let histo = Histo::new();
+    // second space first (fixed share of the budget): shapes with one or two non-primitive ops
+    let npo_cov = if ctx.opt("family").is_some() { json!(null) } else { npo::run(&ctx, &report, &histo, if ctx.quick() { 0.18 } else { 0.45 }) };
+
     let mut fams = families_scaled(if ctx.quick() { 1 } else { 2 });
     if let Some(f) = ctx.opt("family") {
         fams = families(true).into_iter().chain(families(false)).chain(families_scaled(1)).filter(|x| x.name == f).collect();
     }
+    if ctx.opt("npo-only").is_some() {
+        fams.clear();
+    }
     let seen_keys = SeenSet::default();
-    let histo = Histo::new();
     let samples: Mutex<Vec<Value>> = Mutex::new(vec![]);
     let audited = AtomicU64::new(0);
     let raw = AtomicU64::new(0);
@@ -263,10 +294,13 @@ fn main() {
         "honest_runs_through_p3_check_lookups": dbg_done.load(Ordering::Relaxed),
         "outcome_histogram": histo.to_json(),
         "raw_findings": raw.load(Ordering::Relaxed),
+        "npo_shape_space": npo_cov,
         "configuration": "BabyBear D=1, default TablePacking (bus indices and multiplicities do not depend on lanes)",
     });
     finish(&ctx, cov, vec![
         "effective multiplicities are read as the AIR documents them: a: mult_a*a_reader_col, c: mult_a*c_reader_col, b: mult_b, out: mult_out; Const/Public: [mult, idx]".into(),
         "a budgeted subset of audit-clean programs is cross-checked by p3_lookup::debug_util::check_lookups on honest traces".into(),
+        "npo shape space (KoalaBear D=4): Const/Public/ALU ports from the final preprocessed matrices; Poseidon2 ports = in_idx with -(in_ctl)(1-merkle), out_idx with the signed out_ctl, recompose ports = [idx, mult] pairs, all from the final per-op columns the prover commits; coefficient inputs of PLAIN recompose rows never reach the bus by design (C12's subject) and are not counted as relation ports".into(),
+        "npo shape space: honest prove+verify (with p3 check_lookups) runs on the first shape of every distinct census signature (same interaction structure), not on every shape".into(),
     ], &report);
 }
